@@ -14,6 +14,7 @@ import (
 	"verif/internal/cards"
 	"verif/internal/explore"
 	"verif/internal/hand"
+	"verif/internal/pots"
 )
 
 type checkFn func(rep *explore.Report, tier string)
@@ -29,12 +30,15 @@ var checks = map[string]checkFn{
 	"C13": hand.RunC13,
 	"C14": hand.RunC14,
 	"C15": hand.RunC15,
+	"C16": pots.RunC16,
+	"C02": pots.RunC02,
 }
 
 var replayers = map[string]func(v *explore.Violation) (bool, string){
 	"cards-c03":    cards.ReplayC03,
 	"hand":         hand.ReplayViolation,
 	"hand-shuffle": hand.ReplayShuffle,
+	"pots":         pots.Replay,
 }
 
 func main() {
